@@ -245,17 +245,59 @@ func c17Callbacks(c *Ctx, r *Report, pkgRel string) map[string]bool {
 			}
 		}
 	}
-	// every dynamic call in the package
-	for _, fn := range c.allFuncs(pkgRel) {
-		hasDyn := false
+	// every dynamic call in the package. An unexported helper that is only ever called
+	// statically from inside the package is examined in its callers' frames (with the arguments
+	// they pass), not stand-alone with arbitrary parameters.
+	ownDyn := func(fn *ssa.Function) bool {
 		for _, b := range fn.Blocks {
 			for _, in := range b.Instrs {
 				if ci, ok := in.(ssa.CallInstruction); ok {
 					cm := ci.Common()
 					if !cm.IsInvoke() && cm.StaticCallee() == nil {
 						if _, isB := cm.Value.(*ssa.Builtin); !isB {
-							hasDyn = true
+							return true
 						}
+					}
+				}
+			}
+		}
+		return false
+	}
+	helperOnly := map[*ssa.Function]bool{}
+	for _, fn := range c.allFuncs(pkgRel) {
+		if fn.Parent() != nil || fn.Object() == nil || fn.Object().Exported() {
+			continue
+		}
+		node := c.callGraph().Nodes[fn]
+		if node == nil || len(node.In) == 0 {
+			continue
+		}
+		all := true
+		for _, e := range node.In {
+			call, ok := e.Site.(*ssa.Call)
+			if !ok || call.Common().StaticCallee() != fn || e.Caller.Func.Pkg != fn.Pkg {
+				all = false
+			}
+		}
+		// only helpers that take a function value as a parameter need their callers' context
+		takesFunc := false
+		for _, p := range fn.Params {
+			if _, ok := p.Type().Underlying().(*types.Signature); ok {
+				takesFunc = true
+			}
+		}
+		helperOnly[fn] = all && takesFunc
+	}
+	for _, fn := range c.allFuncs(pkgRel) {
+		if helperOnly[fn] {
+			continue
+		}
+		hasDyn := ownDyn(fn)
+		for _, b := range fn.Blocks {
+			for _, in := range b.Instrs {
+				if call, ok := in.(*ssa.Call); ok {
+					if sc := call.Common().StaticCallee(); sc != nil && helperOnly[sc] && ownDyn(sc) {
+						hasDyn = true
 					}
 				}
 			}
@@ -265,7 +307,8 @@ func c17Callbacks(c *Ctx, r *Report, pkgRel string) map[string]bool {
 		}
 		an, fr := get(fn)
 		for _, cr := range an.calls {
-			if cr.frame != fr || cr.callee != nil || cr.method != "" || cr.dyn == nil {
+			inHelper := cr.frame != fr && cr.frame.within(fr) && helperOnly[cr.frame.fn]
+			if (cr.frame != fr && !inHelper) || cr.callee != nil || cr.method != "" || cr.dyn == nil {
 				continue
 			}
 			if _, isF := cr.dyn.(AFunc); isF {
@@ -460,7 +503,23 @@ func c17Structure(c *Ctx, r *Report) {
 	// rejected connection is closed before the loop continues
 	r.instance("R17.3", 1)
 	rejOK := false
+	// the accept callback is consulted in serve itself or in a helper of the package it calls
+	var rejFns []*ssa.Function
+	rejFns = append(rejFns, serve)
 	for _, b := range serve.Blocks {
+		for _, in := range b.Instrs {
+			if call, ok := in.(*ssa.Call); ok {
+				if sc := call.Common().StaticCallee(); sc != nil && sc.Pkg == serve.Pkg && sc.Blocks != nil {
+					rejFns = append(rejFns, sc)
+				}
+			}
+		}
+	}
+	var rejBlocks []*ssa.BasicBlock
+	for _, f := range rejFns {
+		rejBlocks = append(rejBlocks, f.Blocks...)
+	}
+	for _, b := range rejBlocks {
 		iff, ok := b.Instrs[len(b.Instrs)-1].(*ssa.If)
 		if !ok {
 			continue
